@@ -727,7 +727,7 @@ h("ka2_inflate_end_releases_once", I + "/ki8_entry.rs", "inflate::verif_kani::ki
 # =================================================================================================================
 # measured peak RSS (GB, rounded up) of the heavier harnesses' CBMC process, used by the scheduler's memory-aware admission
 # (lib/runner.py); harnesses without an entry are estimated at a third of their cap.  Values come from evidence/*.json.
-RSS_MEASURED = {"kd6_stored_window_holds_the_latest_input": 12, "kb1_back_lit1_d16": 6, "kb1_back_lit1_d29": 9, "kb1_back_lit1_d4": 6, "kb1_back_lit9_d5": 11, "kd10_reset_equals_fresh": 9,
+RSS_MEASURED = {"kd6_stored_flush_tail_k3": 15, "kd6_stored_window_holds_the_latest_input": 12, "kb1_back_lit1_d16": 6, "kb1_back_lit1_d29": 9, "kb1_back_lit1_d4": 6, "kb1_back_lit9_d5": 11, "kd10_reset_equals_fresh": 9,
                 "kd4_build_tree_bl_single": 6, "kd6_stored_one_call": 19, "kd6_stored_resume": 16, "kd6_stored_tiny_pending": 16, "kd7_gzip_header_none_s1": 17,
                 "kd7_gzip_start_stale_gzindex": 10, "kd7_zlib_starved_finish": 16, "kd7_zlib_wrapper": 10, "kd8_quick_sync_n3": 10, "kd8_quick_finish_n5": 12,
                 "ki2_copy_match_twin_small": 10, "ki2_extend_from_window_twin": 9, "ki5a_head_w3_n2": 12, "ki5a_head_w7_n2": 16,
